@@ -45,6 +45,13 @@ def r2(ctx):
          'that is the timeout event on the message')
   cbs = list(f.nested.values())
   if len(cbs) != 1:
+    lam = [c for c in walk_no_nested(f.node) if isinstance(c, ast.Call) and call_attr(c) in ('rawlink', 'ContinueWith', 'SafeLink') and c.args and isinstance(c.args[0], ast.Lambda)
+           and '_AsyncProcessRequestImpl' in U(c.args[0].body)]
+    if lam:
+      ctx.ob('C12.R2', f, 'resumed only when the timeout event is absent or not set', False,
+             'the request deferred until open completes is resumed by %s with no look at its timeout event at that time' % U(lam[0].args[0])[:90], why)
+      gate_direct(ctx)
+      return
     raise AnalysisError('C12.R2: open-gate callback not found')
   cb = cbs[0]
   links = [c for c in walk_no_nested(f.node) if isinstance(c, ast.Call) and call_attr(c) in ('rawlink', 'ContinueWith') and c.args and U(c.args[0]) == cb.name]
